@@ -56,6 +56,7 @@ class Check:
             self.replayed += r['replayed']; self.replay_ok += r['replay_ok']; self.silent += r['silent']
             summary['paths'] += r['paths']; summary['reference_cases'] += r['cases']; summary['oracle_silent'] += r['silent']
             for k, v in r['ref_kinds'].items(): summary['ref_outcomes'][k] = summary['ref_outcomes'].get(k, 0) + v
+            for k, v in r.get('silent_reasons', {}).items(): summary.setdefault('oracle_silent_reasons', {}); summary['oracle_silent_reasons'][k] = summary['oracle_silent_reasons'].get(k, 0) + v
             for s in r['samples']:
                 if len(self.samples) < 12: self.samples.append(s)
             for inc in r['inconclusive']: self.inconclusive.append('%s/%s: %s' % (name, r['name'], inc))
